@@ -536,11 +536,23 @@ func c15Rounds(r *ev.Run) {
 }
 
 func init() {
-	registerChild("C15", "exploration", "race", func(r *ev.Run) {
+	// the rounds run the real clients (goroutines of their own) under the race detector in a child
+	// process; the sampling part is pure computation and runs in the plain parent (the 2^32-word
+	// enumeration would take ten times as long under -race)
+	Legs["C15rounds"] = func(args []string) {
+		r := ev.NewLeg("C15")
+		c15Rounds(r)
+		r.FinishLeg()
+	}
+	register("C15", "exploration", func(r *ev.Run) {
 		if r.Only() == "" || r.Only()[0] != 'm' {
 			c15Sample(r)
 		}
-		c15Rounds(r)
+		var env []string
+		if r.Only() != "" {
+			env = append(env, "VERIF_ONLY="+r.Only())
+		}
+		r.CrashViolation(r.RunLeg("race", "C15rounds", 60*time.Minute, env), "MeasureClockOffsetSCION rounds")
 		r.Assume("uniformity: chi-square at p ~ 1e-9 over the chosen subsets with a uniform (seeded) word source, deterministic per seed; the full 2^32-word enumeration (thorough) only for n = 3")
 		r.Assume("paths are hand-built (no control plane); each path's next hop is its own scripted server; clients are told apart by DSCP; data race reports are recorded as observations (the property does not claim race freedom)")
 		r.Finish("part 1: crypto.Sample for k,n in 0..13 (and n up to 299) with crypto/rand.Reader replaced by a scripted word source (uniform, and small words that rejection sampling must retry): return value, range and injectivity of the pick(dst,src) assignment; "+
